@@ -499,6 +499,8 @@ fn classify_error(msg: &str) -> String {
         "E:slice".into()
     } else if msg.contains("supports '.' access") {
         "E:access".into()
+    } else if msg.contains("would result in invalid UTF-8 data") {
+        "E:utf8".into()
     } else {
         format!("E:other:{}", msg.lines().next().unwrap_or("").replace(' ', "_"))
     }
